@@ -11,14 +11,15 @@ EVERY well-formed layout (any number of folders and entries, any sizes < 2^64, a
 
 `crc` (zlib.crc32 in the library, bitwise CRC-32 in the driver) is a parameter with `crc x < 2^32`.
 
-Two findings about the library surfaced while proving (both reproduced on the real code, see `known_findings.jsonl`):
-* `7z.substream-digests-with-folder-crc`: with folder CRCs stored, a folder holding one file has no SubStreamsInfo
-  digest (7zFormat.txt: "digests for streams with unknown CRC"); the reader expects one per substream and rejects
-  the archive when single-file and multi-file folders are mixed  ⇒ the theorem carries `mixedWithFolderCrc L = false`
-  and `header_mixed_folder_crc_counterexample` shows the rejection.
-* `7z.attributes-external-byte-not-read`: `_parse_files_info` does not consume the `External` byte of the
-  attributes property, so every attribute is read one byte early (`seenAttrs`); `stateOf` says exactly what is
-  read, and `header_attribute_shift_counterexample` shows a regular file listed as a directory.
+Two defects of the library surfaced while proving; both are repaired (`fix:` commits) and the model is of the
+repaired code.  The previous parser is kept as the `legacy` variant of the model; for it the full statement is
+false, which the two `*_legacy_counterexample` theorems show (witnesses replayed on the real code every run):
+* `7z.substream-digests-with-folder-crc` (fix-7z-substream-digest-count): with folder CRCs stored, a folder holding
+  one file has no SubStreamsInfo digest (7zFormat.txt: "digests for streams with unknown CRC"); the previous reader
+  expected one per substream and rejected the archive when single-file and multi-file folders were mixed.
+* `7z.attributes-external-byte-not-read` (fix-7z-attributes-external-byte): the previous `_parse_files_info` did not
+  consume the `External` byte of the attributes property, so every attribute was read one byte early (`seenAttrs`)
+  and a regular file could be listed as a directory.
 -/
 namespace S2T.C10.Header
 open S2T.SevenZip
@@ -42,40 +43,39 @@ def exLayout : Layout :=
     tail := [eDir],
     opts := { packCrc := true, mtime := true, dummy := 3 } }
 
-example : WellFormed exLayout ∧ mixedWithFolderCrc exLayout = false := by decide
+example : WellFormed exLayout := by decide
 
 /-! ## the round trip -/
 
-/-- **Header block round trip** (`_parse_end_header` on the header block).  For every well-formed layout whose
-    SubStreamsInfo digests the reader can follow, parsing the bytes `writeHeader L` with the model of the library's
-    parser consumes them all and yields exactly `stateOf L`.
-
-    Full statement (no `hmix`) is FALSE on the current tree: see `header_mixed_folder_crc_counterexample`. -/
-theorem header_block_round_trip_partial (L : Layout) (hwf : WellFormed L) (hmix : mixedWithFolderCrc L = false)
+/-- header block, for the repaired reader and for the previous one (`known` / `ext` = false) -/
+private theorem block_round_trip (L : Layout) (hwf : WellFormed L) (known ext : Bool) (hd : DigestsOk known L)
     (c : Codec) (file : Bytes) :
-    parseEndHeader S2T.Gen.SevenZip.ids fixed c file { stream := writeHeader L } = .ok ((), stateOf L) := by
+    parseEndHeader S2T.Gen.SevenZip.ids { fixed with digestsKnown := known, attrExternal := ext } c file
+        { stream := writeHeader L } = .ok ((), stateOfV ext L) := by
   rw [gen_ids]
   have hf := wf_foldersOk hwf
-  have hm := parseMainHeader_write L hf (digestsAgree_of_not_mixed L hf.count1 hmix) (wf_entriesOk hwf)
+  have hm := parseMainHeader_write L hf known ext hd (wf_entriesOk hwf)
   obtain ⟨t, ht⟩ : ∃ t, writeHeader L = 1 :: t := ⟨_, rfl⟩
   rw [ht] at hm ⊢
   simp only [List.tail_cons] at hm
   unfold parseEndHeader
   simp [bind, StateT.bind, Except.bind, readU8, ids_kEncodedHeader, ids_kHeader, hm]
 
+/-- **Header block round trip** (`_parse_end_header` on the header block).  For EVERY well-formed layout, parsing
+    the bytes `writeHeader L` with the model of the library's parser consumes them all and yields exactly
+    `stateOf L` (attributes as written, one folder per folder of the layout with its coder, sizes and CRC). -/
+theorem header_block_round_trip (L : Layout) (hwf : WellFormed L) (c : Codec) (file : Bytes) :
+    parseEndHeader S2T.Gen.SevenZip.ids fixed c file { stream := writeHeader L } = .ok ((), stateOf L) :=
+  block_round_trip L hwf true true (digestsOk_fixed L) c file
+
 private theorem leValue_le_small (k n : Nat) (h : n < 256 ^ k) : leValue (le k n) = n := by
   rw [leValue_le, Nat.mod_eq_of_lt h]
 
-/-- **Whole-file round trip** (`SevenZipReader.__init__`).  The file = 32-byte start header (signature, version,
-    two CRCs, offset and size of the header block) ++ `body` (the pack streams; any bytes) ++ `writeHeader L`.
-    The model of the library's reader accepts it and ends in exactly `stateOf L`.  `hfit`: positions the reader
-    hands to `BytesIO.seek/read` fit a C `ssize_t` (else the real reader raises `OverflowError`). -/
-theorem header_round_trip_partial (crc : Bytes → Nat) (hcrc : ∀ x, crc x < 2 ^ 32) (c : Codec)
-    (L : Layout) (hwf : WellFormed L) (hmix : mixedWithFolderCrc L = false) (body : Bytes)
+private theorem file_round_trip (crc : Bytes → Nat) (hcrc : ∀ x, crc x < 2 ^ 32) (c : Codec) (v : Variant) (st : R)
+    (L : Layout) (body : Bytes)
+    (hb : parseEndHeader specIds v c (archive crc L body) { stream := writeHeader L } = .ok ((), st))
     (hfit : 32 + body.length < 2 ^ 63 ∧ (writeHeader L).length < 2 ^ 63) :
-    parseHeader S2T.Gen.SevenZip.ids fixed crc c (archive crc L body) = .ok (stateOf L) := by
-  have hb := header_block_round_trip_partial L hwf hmix c (archive crc L body)
-  rw [gen_ids] at hb ⊢
+    parseHeader specIds v crc c (archive crc L body) = .ok st := by
   generalize hH : writeHeader L = H at hb hfit
   have hsf : (startFields crc body.length H).length = 20 := by simp [startFields, le_length]
   have e1 : leValue (le 4 (crc (startFields crc body.length H))) = crc (startFields crc body.length H) :=
@@ -133,6 +133,30 @@ theorem header_round_trip_partial (crc : Bytes → Nat) (hcrc : ∀ x, crc x < 2
   rw [if_neg n5]
   simp only [hb]
 
+/-- **Whole-file round trip** (`SevenZipReader.__init__`), for EVERY well-formed layout.  The file = 32-byte start
+    header (signature, version, two CRCs, offset and size of the header block) ++ `body` (the pack streams; any
+    bytes) ++ `writeHeader L`.  The model of the library's reader accepts it and ends in exactly `stateOf L`.
+    `hfit`: positions the reader hands to `BytesIO.seek/read` fit a C `ssize_t` (else the real reader raises
+    `OverflowError`). -/
+theorem header_round_trip (crc : Bytes → Nat) (hcrc : ∀ x, crc x < 2 ^ 32) (c : Codec)
+    (L : Layout) (hwf : WellFormed L) (body : Bytes)
+    (hfit : 32 + body.length < 2 ^ 63 ∧ (writeHeader L).length < 2 ^ 63) :
+    parseHeader S2T.Gen.SevenZip.ids fixed crc c (archive crc L body) = .ok (stateOf L) := by
+  have hb := header_block_round_trip L hwf c (archive crc L body)
+  rw [gen_ids] at hb ⊢
+  exact file_round_trip crc hcrc c fixed _ L body hb hfit
+
+/-- the PREVIOUS reader (`legacy`): the round trip held only under the excluding hypothesis `hmix`, and ended in
+    `stateOfV false L`, the state with the attributes read one byte early -/
+theorem header_round_trip_legacy_partial (crc : Bytes → Nat) (hcrc : ∀ x, crc x < 2 ^ 32) (c : Codec)
+    (L : Layout) (hwf : WellFormed L) (hmix : mixedWithFolderCrc L = false) (body : Bytes)
+    (hfit : 32 + body.length < 2 ^ 63 ∧ (writeHeader L).length < 2 ^ 63) :
+    parseHeader S2T.Gen.SevenZip.ids legacy crc c (archive crc L body) = .ok (stateOfV false L) := by
+  have hd := digestsOk_legacy L (digestsAgree_of_not_mixed L (wf_foldersOk hwf).count1 hmix)
+  have hb := block_round_trip L hwf false false hd c (archive crc L body)
+  rw [gen_ids] at hb ⊢
+  exact file_round_trip crc hcrc c legacy _ L body hb hfit
+
 /-! ## what `stateOf` says, on the example -/
 
 /-- the example layout is listed as packed: names (😀 re-joined from its surrogate pair), kinds, sizes, folder of
@@ -148,7 +172,7 @@ example :
     ∧ (stateOf exLayout).folderToFiles = [(0, [1, 3]), (1, [4])] := by
   decide
 
-/-! ## counterexamples (findings about the library) -/
+/-! ## counterexamples for the previous parser (`legacy`) -/
 
 def fA : EntrySpec := { name := [97], isDir := false, size := 5, attrib := 0x20 }
 def fB : EntrySpec := { name := [98], isDir := false, size := 6, attrib := 0x20 }
@@ -159,15 +183,18 @@ def mixedLayout : Layout :=
   { folders := [{ method := .copy, packSize := 5, entries := [fA] }, { method := .copy, packSize := 13, entries := [fB, fC] }],
     tail := [], opts := { folderCrc := true } }
 
-/-- **counterexample (finding `7z.substream-digests-with-folder-crc`)**: a well-formed layout that stores folder
-    CRCs and mixes a single-file folder with a multi-file one is REJECTED: the writer stores two SubStreamsInfo
-    digests (for b and c; a's CRC is the folder's), the reader reads three and then finds `kName` where it expects
-    `kEnd`.  So `hmix` cannot be dropped from the round-trip theorems. -/
-theorem header_mixed_folder_crc_counterexample :
+/-- **counterexample (previous `_parse_substreams_info`, defect `7z.substream-digests-with-folder-crc`)**: a
+    well-formed layout that stores folder CRCs and mixes a single-file folder with a multi-file one was REJECTED: the
+    writer stores two SubStreamsInfo digests (for b and c; a's CRC is the folder's), the previous reader read three
+    and then found `kName` where it expected `kEnd`.  The repaired reader accepts it (`header_block_round_trip`).
+    Full statement, false for the previous code: `header_round_trip_legacy_partial` without `hmix`. -/
+theorem header_mixed_folder_crc_legacy_counterexample :
     WellFormed mixedLayout ∧ mixedWithFolderCrc mixedLayout = true
-    ∧ parseEndHeader specIds fixed ⟨fun _ _ => none, fun _ _ _ => none⟩ [] { stream := writeHeader mixedLayout }
-        = .error (.bad7z "Expected END in substreams info") := by
-  refine ⟨by decide, by decide, ?_⟩
+    ∧ parseEndHeader specIds legacy ⟨fun _ _ => none, fun _ _ _ => none⟩ [] { stream := writeHeader mixedLayout }
+        = .error (.bad7z "Expected END in substreams info")
+    ∧ parseEndHeader S2T.Gen.SevenZip.ids fixed ⟨fun _ _ => none, fun _ _ _ => none⟩ [] { stream := writeHeader mixedLayout }
+        = .ok ((), stateOf mixedLayout) := by
+  refine ⟨by decide, by decide, ?_, header_block_round_trip mixedLayout (by decide) _ _⟩
   decide +kernel
 
 /-- x carries an attribute with bit 28 set, y is an ordinary file after it -/
@@ -177,14 +204,28 @@ def shiftLayout : Layout :=
                               { name := [121], isDir := false, size := 2, attrib := 0x20 }] }],
     tail := [] }
 
-/-- **counterexample (finding `7z.attributes-external-byte-not-read`)**: the reader takes the attributes one byte
-    early, so y's attribute is read as 0x2010 (low byte = x's high byte 0x10): y — a regular 2-byte file — is
-    listed as a DIRECTORY of size 0 and never extracted.  (The attributes written were 0x10000020 and 0x20.) -/
-theorem header_attribute_shift_counterexample (crc : Bytes → Nat) (hcrc : ∀ x, crc x < 2 ^ 32) (c : Codec) (body : Bytes)
+/-- **counterexample (previous `_parse_files_info`, defect `7z.attributes-external-byte-not-read`)**: the previous
+    reader took the attributes one byte early, so y's attribute was read as 0x2010 (low byte = x's high byte 0x10):
+    y — a regular 2-byte file — was listed as a DIRECTORY of size 0 and never extracted.  The repaired reader lists
+    both files with the attributes that were written (0x10000020 and 0x20). -/
+theorem header_attribute_shift_legacy_counterexample (crc : Bytes → Nat) (hcrc : ∀ x, crc x < 2 ^ 32) (c : Codec) (body : Bytes)
     (hb : body.length = 3) :
-    parseHeader S2T.Gen.SevenZip.ids fixed crc c (archive crc shiftLayout body) = .ok (stateOf shiftLayout)
+    parseHeader S2T.Gen.SevenZip.ids legacy crc c (archive crc shiftLayout body) = .ok (stateOfV false shiftLayout)
+    ∧ (stateOfV false shiftLayout).files.map (fun f => (f.filename, f.isDirectory, f.uncompressed, f.attributes))
+        = [([120], false, 1, 0x2000), ([121], true, 0, 0x2010)]
+    ∧ parseHeader S2T.Gen.SevenZip.ids fixed crc c (archive crc shiftLayout body) = .ok (stateOf shiftLayout)
     ∧ (stateOf shiftLayout).files.map (fun f => (f.filename, f.isDirectory, f.uncompressed, f.attributes))
-        = [([120], false, 1, 0x2000), ([121], true, 0, 0x2010)] := by
-  refine ⟨header_round_trip_partial crc hcrc c shiftLayout (by decide) (by decide) body ⟨by omega, by decide⟩, by decide⟩
+        = [([120], false, 1, 0x10000020), ([121], false, 2, 0x20)] := by
+  refine ⟨header_round_trip_legacy_partial crc hcrc c shiftLayout (by decide) (by decide) body ⟨by omega, by decide⟩, by decide,
+    header_round_trip crc hcrc c shiftLayout (by decide) body ⟨by omega, by decide⟩, by decide⟩
+
+/-- the previous reader, in general: whatever attributes are stored, it reports `seenAttrs 0` of them -/
+theorem legacy_attributes_read_one_byte_early (acc : FilesAcc) (as : List Nat) (h : ∀ a ∈ as, a < 2 ^ 32) (rest : Bytes)
+    (hacc : acc.attributes = List.replicate as.length 0) :
+    fileProp specIds decodeUtf16 false as.length acc 0x15 (1 :: 0 :: (as.flatMap (le 4) ++ rest))
+        = .ok { acc with attributes := seenAttrs 0 as }
+    ∧ fileProp specIds decodeUtf16 true as.length acc 0x15 (1 :: 0 :: (as.flatMap (le 4) ++ rest))
+        = .ok { acc with attributes := as } :=
+  ⟨fileProp_attrs decodeUtf16 false acc as h rest hacc, fileProp_attrs decodeUtf16 true acc as h rest hacc⟩
 
 end S2T.C10.Header
